@@ -127,7 +127,15 @@ def run_check(pid, cfg, tier, seed, args, t0):
         groups.append([os.path.join(ROOT, f) for f in extra])
     all_reports = {}
     for grp in groups:
-        reports, reg = verify_parallel(grp, cfg.get('targets'), procs=args.procs, timeout_ms=timeout_ms,
+        tg = cfg.get('targets')
+        if tier == 'quick' and cfg.get('quick_skip_targets'):
+            from pyvc.contracts import Registry as _R
+            _r = _R()
+            for _f in grp:
+                _r.load(_f)
+            tg = [c.target for c in _r.contracts if c.verified and (tg is None or c.target in tg)
+                  and c.target not in cfg['quick_skip_targets']]
+        reports, reg = verify_parallel(grp, tg, procs=args.procs, timeout_ms=timeout_ms,
                                        max_paths=cfg.get('max_paths', 6000))
         all_reports.update(reports)
     if groups:
